@@ -117,8 +117,10 @@ Definition monitor_detail (c : case) :=
 Definition fin (c : case) : bool := match fst (fst (fst (snd c))) with RFinished => true | _ => false end.
 Definition tr_of (c : case) : list ev := snd (fst (fst (snd c))).
 Definition monitor_c03 (c : case) : bool := negb (fin c) || (protocol_ok (tr_of c) && one_termination (tr_of c)).
-Definition monitor_c08 (c : case) : bool := negb (fin c) || (death_ok (tr_of c) && killer_ok_from [] None (tr_of c)).
+Definition monitor_c08 (c : case) : bool :=
+  negb (fin c) || (death_ok (tr_of c) && killer_ok_from [] None (tr_of c) && dead_state_ok (tr_of c)).
 Definition monitor_c09 (c : case) : bool :=
   let '(st, tr, r, av) := snd c in
-  negb (fin c) || (one_termination tr && result_ok (nchars_of (fst c)) (Z.of_nat (length (c_units (fst c)))) tr r av).
+  negb (fin c) || (one_termination tr && reason_ok (fst c) tr &&
+                   result_ok (nchars_of (fst c)) (Z.of_nat (length (c_units (fst c)))) tr r av).
 Definition monitor_c11 (c : case) : bool := negb (fin c) || decision_ok (fst c) (tr_of c).
